@@ -584,6 +584,8 @@ class SymEval(Flow):
                 return Int(recv.s)
             if name == 'end':
                 return Int(recv.e)
+            if name == 'span' and (not args or (isinstance(args[0], Int) and args[0].a == Aff.const(0))):
+                return Tup([Int(recv.s), Int(recv.e)])
             if name == 'group' and args and isinstance(args[0], Int) and args[0].a == Aff.const(0):
                 return Seq(recv.e - recv.s, 'str')
         if name == 'pop':
@@ -628,6 +630,12 @@ class SymEval(Flow):
                 out.append(a - b - 1 if truth else b - a)
             elif isinstance(op, ast.Eq) and truth or isinstance(op, ast.NotEq) and not truth:
                 out += [a - b, b - a]
+            elif isinstance(op, (ast.Eq, ast.NotEq)):
+                # a != b: strict on the side that is already known to be weakly ordered
+                if st.facts.prove_ge0(a - b):
+                    out.append(a - b - 1)
+                elif st.facts.prove_ge0(b - a):
+                    out.append(b - a - 1)
             return out
         v = self.ev(t, st)
         if isinstance(v, Int):
@@ -720,6 +728,15 @@ class SymEval(Flow):
                     s0, e0 = Aff.atom(fresh('mstart')), Aff.atom(fresh('mend'))
                     st.facts = st.facts.add(s0, e0 - s0, n - e0)
                     val = Match(subj, s0, e0)
+            elif getattr(it.func, 'id', '') == 'range' and len(it.args) in (1, 2) \
+                    and isinstance(s.target, ast.Name):
+                ra = [self.as_int(self.ev(x, st), st) for x in it.args]
+                if len(ra) == 1:
+                    ra = [Aff.const(0), ra[0]]
+                if all(x is not None for x in ra):
+                    rv = Aff.atom(fresh('rng'))
+                    st.facts = st.facts.add(rv - ra[0], ra[1] - 1 - rv)
+                    val = Int(rv)
             else:
                 self.ev(it, st)
         else:
@@ -750,7 +767,50 @@ class SymEval(Flow):
         self.ret_states.append((node, v, st))
 
     # ---- loops: Houdini ---------------------------------------------------------------
+    def _search_loop(self, s, st):
+        """the spelled-out form of  v = next((i for i in range(lo, hi) if C), v):
+               for i in range(lo, hi):
+                   if C:
+                       v = i
+                       break
+        returns the state after the loop, or None if s is not of that form"""
+        if not (isinstance(s, ast.For) and not s.orelse and isinstance(s.target, ast.Name)
+                and isinstance(s.iter, ast.Call) and getattr(s.iter.func, 'id', '') == 'range'
+                and len(s.iter.args) in (1, 2) and len(s.body) == 1 and isinstance(s.body[0], ast.If)
+                and not s.body[0].orelse and len(s.body[0].body) == 2
+                and isinstance(s.body[0].body[1], ast.Break)):
+            return None
+        a = s.body[0].body[0]
+        if not (isinstance(a, ast.Assign) and len(a.targets) == 1 and isinstance(a.targets[0], ast.Name)
+                and isinstance(a.value, ast.Name) and a.value.id == s.target.id):
+            return None
+        v = a.targets[0].id
+        i = s.target.id
+        # the condition must not have side effects on tracked state: only reads
+        for x in ast.walk(s.body[0].test):
+            if isinstance(x, (ast.NamedExpr, ast.Await, ast.Yield)):
+                return None
+        d = st.vars.get(v)
+        if not isinstance(d, Int):
+            return None
+        ra = [self.as_int(self.ev(x, st), st) for x in s.iter.args]
+        if len(ra) == 1:
+            ra = [Aff.const(0), ra[0]]
+        if any(x is None for x in ra):
+            return None
+        r = Aff.atom(fresh('next'))
+        st.facts = st.facts.add_disj([[r - ra[0], ra[1] - 1 - r], [r - d.a, d.a - r]])
+        self.searches.append((s, ra[0], ra[1], d.a, r, st))
+        self.store(a.targets[0], Int(r), st)
+        # the loop variable is left at some value of the range (or unbound): not tracked
+        self._bump(st, i)
+        st.vars.pop(i, None)
+        return st
+
     def loop(self, s, st):
+        sl = self._search_loop(s, st)
+        if sl is not None:
+            return sl
         assigned = _assigned_names(s)
         akeys = _assigned_keys(s)
         # values at entry
